@@ -72,7 +72,15 @@ def compile(
 
     # a model that builds objects and a plain one are different results:
     # they must not share (and overwrite) one cached grammar object
-    key = (name, hasha(grammar), id(semantics), asmodel)
+    # the settings configure the parse of the grammar text itself, so they
+    # decide the result as well
+    key = (
+        name,
+        hasha(grammar),
+        id(semantics),
+        asmodel,
+        repr(sorted(settings.items())),
+    )
     if key in cache:
         model = cache[key]
     else:
